@@ -858,6 +858,89 @@ pub fn run(tier: &str, parity_odd: bool, shard: usize, nshards: usize, rep: &mut
                 }
             }
         }
+        // an owner whose destructor panics: the panic comes out of whichever call releases the last view; nothing may be
+        // released twice, written after its release or leaked (the owner's own heap data is the owner's business)
+        struct DropBomb(Vec<u8>);
+        impl AsRef<[u8]> for DropBomb {
+            fn as_ref(&self) -> &[u8] {
+                &self.0
+            }
+        }
+        impl Drop for DropBomb {
+            fn drop(&mut self) {
+                if !std::thread::panicking() {
+                    panic!("owner destructor panics");
+                }
+            }
+        }
+        for clones in 0..2u8 {
+            for follow in 0..6u8 {
+                oracle::begin_execution(parity_odd);
+                oracle::sys::set_crash_note(&format!("liar owner with a panicking destructor clones={} follow={}", clones, follow));
+                st.execs += 1;
+                let mut out: Out = Vec::with_capacity(64);
+                let r = oracle::subject(|| {
+                    catch_unwind(AssertUnwindSafe(|| {
+                        let b = Bytes::from_owner(DropBomb(vec![0x11, 0x12, 0x13, 0x14]));
+                        let keep = if clones == 1 { Some(b.clone()) } else { None };
+                        let r = catch_unwind(AssertUnwindSafe(|| match follow {
+                            0 => drop(b),
+                            1 => {
+                                let v: Vec<u8> = b.into();
+                                push_bytes(&mut out, &v);
+                            }
+                            2 => {
+                                let m = BytesMut::from(b);
+                                push_bytes(&mut out, &m);
+                            }
+                            3 => {
+                                let m = b.try_into_mut();
+                                push_bytes(&mut out, &[m.is_ok() as u8]);
+                            }
+                            4 => {
+                                let mut b = b;
+                                b.clear();
+                                let m = BytesMut::from(b);
+                                push_bytes(&mut out, &m);
+                            }
+                            _ => {
+                                let mut b = b;
+                                let t = b.split_off(2);
+                                drop(b);
+                                push_bytes(&mut out, &t);
+                            }
+                        }));
+                        // the other handle (if any) is released afterwards: the destructor runs (and panics) here instead
+                        let r2 = catch_unwind(AssertUnwindSafe(|| drop(keep)));
+                        if let Err(e) = r {
+                            std::panic::resume_unwind(e);
+                        }
+                        if let Err(e) = r2 {
+                            std::panic::resume_unwind(e);
+                        }
+                    }))
+                });
+                match r {
+                    Ok(()) => st.returned += 1,
+                    Err(p) => {
+                        st.panics += 1;
+                        oracle::subject(|| drop(p));
+                    }
+                }
+                let what = format!("an owner whose destructor panics, {} extra handle(s), consumer {}", clones, follow);
+                judge("Bytes::from_owner(owner with panicking Drop)", &what, &out, rep);
+                if let Some(v) = oracle::take_violation().or_else(oracle::check_canaries) {
+                    rep.violate("C17", "from_owner-drop-panic:memory", &format!("from_owner with {}: {}", what, v), "");
+                }
+                let end = oracle::end_execution();
+                if !end.leaked.is_empty() || end.corrupt.is_some() {
+                    rep.violate("C17", "from_owner-drop-panic:leak", &format!("from_owner with {}: {:?}", what, end), "");
+                }
+                if let Some(v) = oracle::take_violation() {
+                    rep.violate("C17", "from_owner-drop-panic:memory", &format!("from_owner with {}: {}", what, v), "");
+                }
+            }
+        }
         // io::Cursor<T> over an owner whose as_ref() answers a different slice per call (short 4 bytes / long 64 bytes):
         // every Buf method of the cursor and the consumers built on it
         for mode in [0u8, 2, 3, 4, 5, 6] {
